@@ -21,6 +21,7 @@ import (
 	"math/big"
 	"math/rand/v2"
 	"net/http"
+	"net/http/httptest"
 	"os"
 	"path/filepath"
 	"reflect"
@@ -2025,6 +2026,988 @@ func c19Fuzz(r *rand.Rand, total int, emit func(any)) {
 }
 
 // ---------------------------------------------------------------------------------------------
+// Table 8: arity (nil / empty / one element) of every list- and map-valued member of the result types:
+// json.Marshal -> internal/json + the type's own UnmarshalJSON (the path of a receiving session).
+
+type c19ArCase struct {
+	Type   string `json:"type"`
+	Member string `json:"member"`
+	Arity  string `json:"arity"`
+	Rt     string `json:"rt"`
+	Fill   string `json:"fill"`
+}
+
+type c19ArOut struct {
+	OK     bool   `json:"ok"`
+	Wire   string `json:"wire"`   // absent | null | empty | one | single | other
+	IsNil  bool   `json:"isnil"`  // the decoded member is nil
+	Len    int    `json:"len"`    // its length
+	Same   bool   `json:"same"`   // its elements equal the original's
+	Others bool   `json:"others"` // every other member (and the result type) equals the original's
+}
+
+// c19FieldByTag finds the (possibly promoted) field whose JSON name is tag.
+func c19FieldByTag(v reflect.Value, tag string) (reflect.Value, bool) {
+	t := v.Type()
+	for i := 0; i < t.NumField(); i++ {
+		f := t.Field(i)
+		name, _, _ := strings.Cut(f.Tag.Get("json"), ",")
+		if name == tag {
+			return v.Field(i), true
+		}
+		if f.Anonymous && name == "" && f.Type.Kind() == reflect.Struct {
+			if x, ok := c19FieldByTag(v.Field(i), tag); ok {
+				return x, true
+			}
+		}
+	}
+	return reflect.Value{}, false
+}
+
+func c19FieldByPath(v reflect.Value, path string) reflect.Value {
+	for _, step := range strings.Split(path, ".") {
+		f, ok := c19FieldByTag(v, step)
+		if !ok {
+			panic("no member " + path + " in " + v.Type().String())
+		}
+		v = f
+	}
+	return v
+}
+
+func c19InputRequest(r *rand.Rand, flavor string) InputRequest {
+	switch r.IntN(3) {
+	case 0:
+		return &ListRootsParams{}
+	case 1:
+		return &ElicitParams{Mode: "url", Message: c19Flav(r, flavor), URL: "https://example.com/x", ElicitationID: "e1"}
+	}
+	return &ElicitParams{Mode: "form", Message: c19Flav(r, flavor), RequestedSchema: map[string]any{"type": "object", "properties": map[string]any{"n": map[string]any{"type": "string"}}}}
+}
+
+// c19ArOne returns a container of type t with one element.
+func c19ArOne(r *rand.Rand, t reflect.Type, flavor string) reflect.Value {
+	s := func() string { return c19Flav(r, flavor) }
+	var v any
+	switch t {
+	case reflect.TypeOf([]Content(nil)):
+		v = []Content{&TextContent{Text: s()}}
+	case reflect.TypeOf(Meta(nil)):
+		v = Meta{"k": s()}
+	case reflect.TypeOf(InputRequestMap(nil)):
+		v = InputRequestMap{"r-" + strconv.Itoa(r.IntN(100)): c19InputRequest(r, flavor)}
+	case reflect.TypeOf([]*PromptMessage(nil)):
+		v = []*PromptMessage{{Role: "user", Content: &TextContent{Text: s()}}}
+	case reflect.TypeOf([]*ResourceContents(nil)):
+		v = []*ResourceContents{{URI: "file:///one", Text: "t" + s()}}
+	case reflect.TypeOf([]*Tool(nil)):
+		v = []*Tool{{Name: "t1", Description: s(), InputSchema: map[string]any{"type": "object"}}}
+	case reflect.TypeOf([]*Prompt(nil)):
+		v = []*Prompt{{Name: "p1", Description: s()}}
+	case reflect.TypeOf([]*Resource(nil)):
+		v = []*Resource{{Name: "r1", URI: "file:///r", Description: s()}}
+	case reflect.TypeOf([]*ResourceTemplate(nil)):
+		v = []*ResourceTemplate{{Name: "rt1", URITemplate: "file:///{x}", Description: s()}}
+	case reflect.TypeOf([]*Root(nil)):
+		v = []*Root{{URI: "file:///root", Name: s()}}
+	case reflect.TypeOf([]string(nil)):
+		v = []string{s()}
+	case reflect.TypeOf(map[string]any(nil)):
+		v = map[string]any{"k": s()}
+	default:
+		panic("c19ArOne: " + t.String())
+	}
+	return reflect.ValueOf(v)
+}
+
+// c19ArValue builds a value of the result type (minimal, or with every other member filled in) and a
+// fresh value to decode into.
+func c19ArValue(r *rand.Rand, typ string, full bool, flavor string) (a, b any) {
+	s := func() string { return c19Flav(r, flavor) }
+	text := func() Content { return &TextContent{Text: s()} }
+	irm := func() InputRequestMap { return InputRequestMap{"q": c19InputRequest(r, flavor)} }
+	cache := Cacheable{}
+	if full {
+		cache = Cacheable{TTLMs: 1 + r.IntN(100000), CacheScope: "public"}
+	}
+	switch typ {
+	case "CallToolResult":
+		x := &CallToolResult{}
+		if full {
+			*x = CallToolResult{Meta: Meta{"m": s()}, Content: []Content{text()}, StructuredContent: map[string]any{"s": s()}, IsError: true,
+				InputRequests: irm(), RequestState: "st-" + s()}
+		}
+		return x, &CallToolResult{}
+	case "GetPromptResult":
+		x := &GetPromptResult{}
+		if full {
+			*x = GetPromptResult{Meta: Meta{"m": s()}, Description: s(), Messages: []*PromptMessage{{Role: "assistant", Content: text()}},
+				InputRequests: irm(), RequestState: "st-" + s()}
+		}
+		return x, &GetPromptResult{}
+	case "ReadResourceResult":
+		x := &ReadResourceResult{Cacheable: cache}
+		if full {
+			x.Meta, x.Contents, x.InputRequests, x.RequestState = Meta{"m": s()}, []*ResourceContents{{URI: "file:///f", Blob: []byte{1, 2}}}, irm(), "st-"+s()
+		}
+		return x, &ReadResourceResult{}
+	case "ListToolsResult":
+		x := &ListToolsResult{Cacheable: cache}
+		if full {
+			x.Meta, x.NextCursor, x.Tools = Meta{"m": s()}, "cur-"+s(), []*Tool{{Name: "f", InputSchema: map[string]any{"type": "object"}}}
+		}
+		return x, &ListToolsResult{}
+	case "ListPromptsResult":
+		x := &ListPromptsResult{Cacheable: cache}
+		if full {
+			x.Meta, x.NextCursor, x.Prompts = Meta{"m": s()}, "cur-"+s(), []*Prompt{{Name: "f"}}
+		}
+		return x, &ListPromptsResult{}
+	case "ListResourcesResult":
+		x := &ListResourcesResult{Cacheable: cache}
+		if full {
+			x.Meta, x.NextCursor, x.Resources = Meta{"m": s()}, "cur-"+s(), []*Resource{{Name: "f", URI: "file:///f"}}
+		}
+		return x, &ListResourcesResult{}
+	case "ListResourceTemplatesResult":
+		x := &ListResourceTemplatesResult{Cacheable: cache}
+		if full {
+			x.Meta, x.NextCursor, x.ResourceTemplates = Meta{"m": s()}, "cur-"+s(), []*ResourceTemplate{{Name: "f", URITemplate: "file:///{f}"}}
+		}
+		return x, &ListResourceTemplatesResult{}
+	case "ListRootsResult":
+		x := &ListRootsResult{}
+		if full {
+			x.Meta, x.Roots = Meta{"m": s()}, []*Root{{URI: "file:///f", Name: "f"}}
+		}
+		return x, &ListRootsResult{}
+	case "CompleteResult":
+		x := &CompleteResult{}
+		if full {
+			x.Meta, x.Completion = Meta{"m": s()}, CompletionResultDetails{HasMore: true, Total: 7, Values: []string{s()}}
+		}
+		return x, &CompleteResult{}
+	case "CreateMessageResult":
+		x := &CreateMessageResult{Content: text(), Model: "m-1", Role: "assistant"}
+		if full {
+			x.Meta, x.StopReason = Meta{"m": s()}, "endTurn"
+		}
+		return x, &CreateMessageResult{}
+	case "CreateMessageWithToolsResult":
+		x := &CreateMessageWithToolsResult{Model: "m-1", Role: "assistant"}
+		if full {
+			x.Meta, x.StopReason, x.Content = Meta{"m": s()}, "toolUse", []Content{text(), &ToolUseContent{ID: "u1", Name: "t", Input: map[string]any{"a": 1.0}}}
+		}
+		return x, &CreateMessageWithToolsResult{}
+	case "InitializeResult":
+		x := &InitializeResult{ProtocolVersion: c19Proto2025, Capabilities: &ServerCapabilities{}, ServerInfo: &Implementation{Name: "s", Version: "1"}}
+		if full {
+			x.Meta, x.Instructions = Meta{"m": s()}, s()
+		}
+		return x, &InitializeResult{}
+	case "DiscoverResult":
+		x := &DiscoverResult{Cacheable: cache, Capabilities: &ServerCapabilities{}}
+		if full {
+			x.Meta, x.Instructions, x.SupportedVersions = Meta{"m": s()}, s(), []string{"2025-06-18", "2026-07-28"}
+		}
+		return x, &DiscoverResult{}
+	case "ElicitResult":
+		x := &ElicitResult{Action: "accept"}
+		if full {
+			x.Meta, x.Content = Meta{"m": s()}, map[string]any{"name": s(), "n": 2.0}
+		}
+		return x, &ElicitResult{}
+	case "SubscriptionsListenResult":
+		x := &SubscriptionsListenResult{}
+		if full {
+			x.Meta = Meta{"m": s()}
+		}
+		return x, &SubscriptionsListenResult{}
+	}
+	panic("ar type " + typ)
+}
+
+// c19ResultType reads the result type of a result value ("" if the type has none).
+func c19ResultType(v any) string {
+	switch x := v.(type) {
+	case *CallToolResult:
+		return string(x.resultType)
+	case *GetPromptResult:
+		return string(x.resultType)
+	case *ReadResourceResult:
+		return string(x.resultType)
+	}
+	if f, ok := c19FieldByTag(reflect.ValueOf(v).Elem(), "resultType"); ok {
+		return f.String()
+	}
+	return ""
+}
+
+func c19RunAr(r *rand.Rand, c c19ArCase) (o c19ArOut, enc string) {
+	flavor := c19Pick(r, "plain", "plain", "unicode", "newline")
+	a, b := c19ArValue(r, c.Type, c.Fill == "full", flavor)
+	fa := c19FieldByPath(reflect.ValueOf(a).Elem(), c.Member)
+	switch c.Arity {
+	case "nil":
+		fa.Set(reflect.Zero(fa.Type()))
+	case "empty":
+		if fa.Kind() == reflect.Map {
+			fa.Set(reflect.MakeMap(fa.Type()))
+		} else {
+			fa.Set(reflect.MakeSlice(fa.Type(), 0, 0))
+		}
+	case "one":
+		fa.Set(c19ArOne(r, fa.Type(), flavor).Convert(fa.Type()))
+	}
+	if c.Rt == "input_required" {
+		a.(multiRoundTripResponse).setResultType(resultTypeInputRequired)
+	}
+	data, err := json.Marshal(a)
+	if err != nil {
+		return o, "marshal: " + err.Error()
+	}
+	enc = c19Trunc(data)
+	// how the member is spelled on the wire
+	o.Wire = "absent"
+	cur := json.RawMessage(data)
+	steps := strings.Split(c.Member, ".")
+	for i, step := range steps {
+		var obj map[string]json.RawMessage
+		if json.Unmarshal(cur, &obj) != nil {
+			o.Wire = "other"
+			break
+		}
+		next, ok := obj[step]
+		if !ok {
+			break
+		}
+		cur = next
+		if i == len(steps)-1 {
+			t := bytes.TrimSpace(cur)
+			var list []json.RawMessage
+			var m map[string]json.RawMessage
+			switch {
+			case string(t) == "null":
+				o.Wire = "null"
+			case json.Unmarshal(t, &list) == nil:
+				o.Wire = map[bool]string{true: "empty", false: "one"}[len(list) == 0]
+			case json.Unmarshal(t, &m) == nil && fa.Kind() == reflect.Slice:
+				o.Wire = "single"
+			case json.Unmarshal(t, &m) == nil:
+				o.Wire = map[bool]string{true: "empty", false: "one"}[len(m) == 0]
+			default:
+				o.Wire = "other"
+			}
+		}
+	}
+	if err := internaljson.Unmarshal(data, b); err != nil {
+		return o, enc + " unmarshal: " + err.Error()
+	}
+	o.OK = true
+	fb := c19FieldByPath(reflect.ValueOf(b).Elem(), c.Member)
+	o.IsNil, o.Len = fb.IsNil(), fb.Len()
+	ja, e1 := json.Marshal(fa.Interface())
+	jb, e2 := json.Marshal(fb.Interface())
+	o.Same = fa.Len() == fb.Len() && (fa.Len() == 0 || (e1 == nil && e2 == nil && c19JSONEq(ja, jb)))
+	// everything else: the same comparison with the member taken out of both
+	rtA, rtB := c19ResultType(a), c19ResultType(b)
+	fa.Set(reflect.Zero(fa.Type()))
+	fb.Set(reflect.Zero(fb.Type()))
+	lost := map[string]bool{}
+	c19Diff("", reflect.ValueOf(a), reflect.ValueOf(b), lost)
+	o.Others = len(lost) == 0 && rtA == rtB
+	if !o.Others {
+		keys := []string{}
+		for k := range lost {
+			keys = append(keys, k)
+		}
+		sort.Strings(keys)
+		enc += fmt.Sprintf(" others lost: %v resultType %q -> %q", keys, rtA, rtB)
+	}
+	return
+}
+
+// ---------------------------------------------------------------------------------------------
+// Table 7: frames of every structural edge class through the read loops of the real transports.
+
+type c19FrCase struct {
+	Shape string `json:"shape"`
+	Pad   string `json:"pad"`
+	Term  string `json:"term"`
+	Path  string `json:"path"`
+	Pos   string `json:"pos"`
+	Proto string `json:"proto"`
+}
+
+type c19FrOut struct {
+	Out string `json:"out"` // value | error | panic | hang   ("crash" is attributed by the runner)
+}
+
+const c19FrLimit = 5 * time.Second
+
+// c19PadInner puts white space between the tokens of a JSON text (at least once if there is a place for it).
+func c19PadInner(r *rand.Rand, b []byte, nl bool) []byte {
+	ws := []string{" ", "\t", "  ", " \t "}
+	if nl {
+		ws = append(ws, "\n", "\r\n", " \n ")
+	}
+	var out []byte
+	inStr, esc, places := false, false, 0
+	for _, ch := range b {
+		if inStr {
+			out = append(out, ch)
+			switch {
+			case esc:
+				esc = false
+			case ch == '\\':
+				esc = true
+			case ch == '"':
+				inStr = false
+			}
+			continue
+		}
+		switch ch {
+		case '"':
+			inStr = true
+			out = append(out, ch)
+		case '[', '{', ',', ':':
+			out = append(out, ch)
+			places++
+			if places == 1 || (places < 200 && r.IntN(2) == 0) {
+				out = append(out, c19Pick(r, ws...)...)
+			}
+		case ']', '}':
+			places++
+			if places < 200 && r.IntN(3) == 0 {
+				out = append(out, c19Pick(r, ws...)...)
+			}
+			out = append(out, ch)
+		default:
+			out = append(out, ch)
+		}
+	}
+	return out
+}
+
+// c19Frame concretises a frame shape.  tag makes the ids unique; respID is the id (JSON text) that
+// response members carry.
+func c19Frame(r *rand.Rand, shape, pad, tag, respID string, nl bool) []byte {
+	n := 0
+	id := func() string { n++; return fmt.Sprintf(`"f-%s-%d"`, tag, n) }
+	call := func(id string) string {
+		return `{"jsonrpc":"2.0","id":` + id + `,"method":"ping"` + c19Pick(r, "", `,"params":{}`, `,"params":null`) + `}`
+	}
+	notif := func() string {
+		return c19Pick(r, `{"jsonrpc":"2.0","method":"notifications/progress","params":{"progressToken":"none","progress":1}}`,
+			`{"jsonrpc":"2.0","method":"notifications/cancelled","params":{"requestId":"nobody"}}`)
+	}
+	resp := func() string {
+		return `{"jsonrpc":"2.0","id":` + respID + `,` + c19Pick(r, `"result":{}`, `"result":{"x":[]}`, `"error":{"code":-32603,"message":"boom"}`) + `}`
+	}
+	big := 300 + r.IntN(300)
+	if c19Tier == "thorough" {
+		big = 2000 + r.IntN(6000)
+	}
+	var f string
+	switch shape {
+	case "empty":
+		f = ""
+	case "ws":
+		f = c19Pick(r, " ", "\t", "   ", " \t ")
+	case "two-values":
+		f = c19Pick(r, "[] []", "{}{}", "[][]", call(id())+" "+call(id()), "[]"+call(id()), call(id())+"[]", "null null", "1 2")
+	case "null":
+		f = "null"
+	case "num":
+		f = c19Pick(r, "0", "-1", "1e3", "1.5", "-0", "123456789012345678901234567890")
+	case "str":
+		f = c19Pick(r, `""`, `"x"`, `"[]"`, `"\u0000"`)
+	case "bool":
+		f = c19Pick(r, "true", "false")
+	case "obj-empty":
+		f = "{}"
+	case "obj-msg":
+		f = call(id())
+	case "obj-notif":
+		f = notif()
+	case "obj-resp":
+		f = resp()
+	case "obj-bad":
+		f = c19Pick(r, `{"jsonrpc":"2.0"}`, `{"id":1}`, `{"jsonrpc":"1.0","id":1,"method":"ping"}`, `{"jsonrpc":"2.0","id":{},"method":"ping"}`,
+			`{"jsonrpc":"2.0","id":1,"method":5}`, `{"jsonrpc":"2.0","result":{}}`, `{"a":[]}`, `{"":null}`)
+	case "arr-empty":
+		f = "[]"
+	case "arr-arr-empty":
+		f = c19Pick(r, "[[]]", "[[],[]]", "[[[]]]")
+	case "arr-null":
+		f = c19Pick(r, "[null]", "[null,null]")
+	case "arr-scalar":
+		f = c19Pick(r, "[1]", `["x"]`, "[true]", "[1,2,3]", `[""]`, "[0]")
+	case "arr-obj-empty":
+		f = c19Pick(r, "[{}]", "[{},{}]")
+	case "arr-one":
+		f = "[" + c19Pick(r, call(id()), notif()) + "]"
+	case "arr-two":
+		f = "[" + call(id()) + "," + c19Pick(r, call(id()), notif()) + "]"
+	case "arr-notifs":
+		f = "[" + notif() + "," + notif() + "]"
+	case "arr-resp":
+		f = "[" + resp() + "]"
+	case "arr-dupid":
+		d := id()
+		f = "[" + call(d) + "," + call(d) + "]"
+	case "arr-bad-last":
+		f = "[" + call(id()) + "," + c19Pick(r, "1", "null", "[]", "{}", `"x"`) + "]"
+	case "arr-bad-first":
+		f = "[" + c19Pick(r, "1", "null", "[]", "{}", `"x"`) + "," + call(id()) + "]"
+	case "arr-nested-msg":
+		f = c19Pick(r, "[["+call(id())+"]]", "[["+call(id())+"],"+call(id())+"]")
+	case "arr-huge":
+		var sb strings.Builder
+		sb.WriteString("[")
+		for i := 0; i < big; i++ {
+			if i > 0 {
+				sb.WriteString(",")
+			}
+			if i%3 == 2 {
+				sb.WriteString(notif())
+			} else {
+				sb.WriteString(call(id()))
+			}
+		}
+		sb.WriteString("]")
+		f = sb.String()
+	case "arr-huge-null":
+		el := c19Pick(r, "null", "[]", "0", "{}")
+		f = "[" + strings.Repeat(el+",", 50*big) + el + "]"
+	case "deep":
+		d := c19Pick(r, 2, 100, 9999, 10000, 10001, 100*big)
+		f = strings.Repeat("[", d) + strings.Repeat("]", d)
+	case "truncated-arr":
+		f = c19Pick(r, "[", "[[", "[{", `[{"jsonrpc":"2.0"`, "["+call(id())+",", "["+call(id()), `["`, "[nul")
+	case "truncated-obj":
+		f = c19Pick(r, "{", `{"jsonrpc":`, `{"jsonrpc":"2.0","id":1,"method":"ping"`, `{"`, `{"jsonrpc":"2.0","id":1,"method":"pi`)
+	default:
+		panic("frame shape " + shape)
+	}
+	b := []byte(f)
+	switch pad {
+	case "inner":
+		b = c19PadInner(r, b, nl)
+	case "outer":
+		lead := c19Pick(r, " ", "\t", "  \t")
+		if nl {
+			lead = c19Pick(r, lead, "\n", "\r\n", " \n")
+		}
+		b = append([]byte(lead), b...)
+		b = append(b, c19Pick(r, "", " ", "\t")...)
+	}
+	return b
+}
+
+func c19Term(term string) string {
+	switch term {
+	case "lf":
+		return "\n"
+	case "crlf":
+		return "\r\n"
+	}
+	return ""
+}
+
+type c19NopW struct{}
+
+func (c19NopW) Write(p []byte) (int, error) { return len(p), nil }
+func (c19NopW) Close() error                { return nil }
+
+func c19FrSentinel(tag string) string {
+	return `{"jsonrpc":"2.0","id":"sent-` + tag + `","method":"ping"}`
+}
+
+// c19Guard runs f in the calling goroutine's stead with a time limit; a panic of f is recovered
+// (f is the SDK function under test, called directly).
+func c19Guard(f func() (string, string)) (out, note string) {
+	type res struct{ out, note string }
+	ch := make(chan res, 1)
+	go func() {
+		defer func() {
+			if p := recover(); p != nil {
+				ch <- res{"panic", fmt.Sprintf("panic: %.300v", p)}
+			}
+		}()
+		o, n := f()
+		ch <- res{o, n}
+	}()
+	select {
+	case x := <-ch:
+		return x.out, x.note
+	case <-time.After(c19FrLimit + 2*time.Second):
+		return "hang", "no outcome within the time limit"
+	}
+}
+
+// --- ioConn.Read called directly
+func c19FrIOConnRead(c c19FrCase, frame []byte, tag string) (string, string) {
+	var stream bytes.Buffer
+	if c.Pos == "after" {
+		stream.WriteString(c19FrSentinel("pre-"+tag) + "\n")
+	}
+	stream.Write(frame)
+	stream.WriteString(c19Term(c.Term))
+	if c.Term != "eof" {
+		stream.WriteString(c19FrSentinel("post-"+tag) + "\n")
+	}
+	conn := c19NewIOConn(io.NopCloser(&stream), c19NopW{})
+	defer conn.Close()
+	return c19Guard(func() (string, string) {
+		ctx, cancel := context.WithTimeout(context.Background(), c19FrLimit)
+		defer cancel()
+		if c.Pos == "after" {
+			conn.sessionUpdated(ServerSessionState{InitializeParams: &InitializeParams{ProtocolVersion: c.Proto}})
+			if _, err := conn.Read(ctx); err != nil {
+				return "error", "the message before the frame was not read: " + err.Error()
+			}
+		}
+		_, err := conn.Read(ctx)
+		switch {
+		case err == nil:
+			return "value", ""
+		case ctx.Err() != nil:
+			return "hang", err.Error()
+		}
+		return "error", err.Error()
+	})
+}
+
+// c19Lines delivers what is written to a pipe line by line; the channel is closed at the end of the stream.
+func c19Lines(rd io.Reader) chan []byte {
+	ch := make(chan []byte, 256)
+	go func() {
+		defer close(ch)
+		br := bufio.NewReaderSize(rd, 1<<16)
+		for {
+			line, err := br.ReadBytes('\n')
+			if len(line) > 0 {
+				ch <- line
+			}
+			if err != nil {
+				return
+			}
+		}
+	}()
+	return ch
+}
+
+// c19Await waits for a line that contains want: "value" (seen), "error" (stream ended), "hang".
+func c19Await(lines chan []byte, want string, limit <-chan time.Time) string {
+	for {
+		select {
+		case l, ok := <-lines:
+			if !ok {
+				return "error"
+			}
+			if bytes.Contains(l, []byte(want)) {
+				return "value"
+			}
+		case <-limit:
+			return "hang"
+		}
+	}
+}
+
+func c19CloseWithin(f func()) {
+	done := make(chan struct{})
+	go func() { f(); close(done) }()
+	select {
+	case <-done:
+	case <-time.After(c19FrLimit):
+	}
+}
+
+// --- a real ServerSession over IOTransport: the jsonrpc2 read loop calls ioConn.Read
+func c19FrIOServer(c c19FrCase, frame []byte, tag string) (out, note string) {
+	ctx, cancel := context.WithCancel(context.Background())
+	defer cancel()
+	server := NewServer(&Implementation{Name: "c19-fr", Version: "1"}, nil)
+	c2sR, c2sW := io.Pipe()
+	s2cR, s2cW := io.Pipe()
+	ss, err := server.Connect(ctx, &IOTransport{Reader: c2sR, Writer: s2cW}, nil)
+	if err != nil {
+		return "error", "set-up: " + err.Error()
+	}
+	lines := c19Lines(s2cR)
+	defer func() {
+		c2sW.Close()
+		c19CloseWithin(func() { ss.Close() })
+		s2cR.Close()
+		c2sR.Close()
+	}()
+	limit := time.After(c19FrLimit)
+	if c.Pos == "after" {
+		go c2sW.Write([]byte(`{"jsonrpc":"2.0","id":"init-` + tag + `","method":"initialize","params":{"protocolVersion":"` + c.Proto +
+			`","capabilities":{},"clientInfo":{"name":"c","version":"1"}}}` + "\n" + `{"jsonrpc":"2.0","method":"notifications/initialized"}` + "\n"))
+		if r := c19Await(lines, `"init-`+tag+`"`, limit); r != "value" {
+			return r, "handshake before the frame failed"
+		}
+	}
+	go func() {
+		c2sW.Write(append(append([]byte{}, frame...), c19Term(c.Term)...))
+		if c.Term == "eof" {
+			c2sW.Close()
+		} else {
+			c2sW.Write([]byte(c19FrSentinel(tag) + "\n"))
+		}
+	}()
+	return c19Await(lines, `"sent-`+tag+`"`, limit), ""
+}
+
+// --- a real ClientSession over IOTransport
+func c19FrIOClient(c c19FrCase, frame []byte, tag string) (out, note string) {
+	ctx, cancel := context.WithCancel(context.Background())
+	defer cancel()
+	client := NewClient(&Implementation{Name: "c19-fr", Version: "1"}, nil)
+	c2sR, c2sW := io.Pipe()
+	s2cR, s2cW := io.Pipe()
+	var wmu sync.Mutex
+	send := func(b []byte) {
+		wmu.Lock()
+		defer wmu.Unlock()
+		s2cW.Write(b)
+	}
+	framed := append(append([]byte{}, frame...), c19Term(c.Term)...)
+	go func() { // the scripted peer
+		dec := json.NewDecoder(c2sR)
+		for {
+			var req struct {
+				ID     json.RawMessage `json:"id"`
+				Method string          `json:"method"`
+			}
+			if err := dec.Decode(&req); err != nil {
+				return
+			}
+			if len(req.ID) == 0 || req.Method == "" {
+				continue
+			}
+			res := `{}`
+			if req.Method == "initialize" {
+				if c.Pos == "first" {
+					send(framed)
+					if c.Term == "eof" {
+						s2cW.Close()
+						continue
+					}
+				}
+				res = `{"protocolVersion":"` + c.Proto + `","capabilities":{},"serverInfo":{"name":"peer","version":"1"}}`
+			}
+			send([]byte(`{"jsonrpc":"2.0","id":` + string(req.ID) + `,"result":` + res + "}\n"))
+		}
+	}()
+	defer func() {
+		s2cW.Close()
+		c2sR.Close()
+	}()
+	type conn struct {
+		cs  *ClientSession
+		err error
+	}
+	ch := make(chan conn, 1)
+	go func() {
+		cs, err := client.Connect(ctx, &IOTransport{Reader: s2cR, Writer: c2sW}, &ClientSessionOptions{ProtocolVersion: c.Proto})
+		ch <- conn{cs, err}
+	}()
+	var cs *ClientSession
+	select {
+	case x := <-ch:
+		if x.err != nil {
+			if c.Pos == "first" {
+				return "error", "connect: " + x.err.Error()
+			}
+			return "error", "set-up: connect: " + x.err.Error()
+		}
+		cs = x.cs
+	case <-time.After(c19FrLimit):
+		return "hang", "connect did not return"
+	}
+	defer c19CloseWithin(func() { cs.Close() })
+	if c.Pos == "after" {
+		send(framed)
+		if c.Term == "eof" {
+			s2cW.Close()
+		}
+	}
+	pctx, pcancel := context.WithTimeout(ctx, c19FrLimit)
+	defer pcancel()
+	if err := cs.Ping(pctx, nil); err != nil {
+		if pctx.Err() != nil {
+			return "hang", err.Error()
+		}
+		return "error", err.Error()
+	}
+	return "value", ""
+}
+
+// --- legacy SSE client: sseClientConn.Read called directly
+type c19FrSSERT struct{ body io.ReadCloser }
+
+func (rt *c19FrSSERT) RoundTrip(req *http.Request) (*http.Response, error) {
+	if req.Method == http.MethodGet {
+		return &http.Response{StatusCode: 200, Status: "200 OK", Header: http.Header{"Content-Type": {"text/event-stream"}}, Body: rt.body, Request: req}, nil
+	}
+	return &http.Response{StatusCode: 202, Status: "202 Accepted", Header: http.Header{}, Body: http.NoBody, Request: req}, nil
+}
+
+func c19SSEBytes(name string, data []byte) []byte {
+	rw := &c19RW{}
+	c19WriteEvent(rw, Event{Name: name, Data: data})
+	return rw.buf.Bytes()
+}
+
+func c19FrSSEClientRead(c c19FrCase, frame []byte, tag string) (string, string) {
+	pr, pw := io.Pipe()
+	defer pw.Close()
+	go func() {
+		pw.Write(c19SSEBytes("endpoint", []byte("/msg?sessionid=1")))
+		if c.Pos == "after" {
+			pw.Write(c19SSEBytes("message", []byte(c19FrSentinel("pre-"+tag))))
+		}
+		pw.Write(c19SSEBytes("message", frame))
+		pw.Write(c19SSEBytes("message", []byte(c19FrSentinel("post-"+tag))))
+	}()
+	ctx, cancel := context.WithTimeout(context.Background(), c19FrLimit)
+	defer cancel()
+	tr := &SSEClientTransport{Endpoint: "http://c19.invalid/sse", HTTPClient: &http.Client{Transport: &c19FrSSERT{body: pr}}}
+	conn, err := tr.Connect(ctx)
+	if err != nil {
+		return "error", "set-up: " + err.Error()
+	}
+	defer conn.Close()
+	return c19Guard(func() (string, string) {
+		if c.Pos == "after" {
+			if _, err := conn.Read(ctx); err != nil {
+				return "error", "the message before the frame was not read: " + err.Error()
+			}
+		}
+		_, err := conn.Read(ctx)
+		switch {
+		case err == nil:
+			return "value", ""
+		case ctx.Err() != nil:
+			return "hang", err.Error()
+		}
+		return "error", err.Error()
+	})
+}
+
+// c19Serve calls an http.Handler of the SDK directly (panics recovered).
+func c19Serve(h http.Handler, method string, hdr map[string]string, body []byte) (status int, rh http.Header, out, note string) {
+	rec := httptest.NewRecorder()
+	ctx, cancel := context.WithTimeout(context.Background(), c19FrLimit)
+	defer cancel()
+	req := httptest.NewRequest(method, "http://c19.verif.test/mcp", bytes.NewReader(body)).WithContext(ctx)
+	for k, v := range hdr {
+		if v != "" {
+			req.Header.Set(k, v)
+		}
+	}
+	out, note = c19Guard(func() (string, string) {
+		h.ServeHTTP(rec, req)
+		if ctx.Err() != nil {
+			return "hang", "the request context expired"
+		}
+		if rec.Code >= 200 && rec.Code < 300 {
+			return "value", strconv.Itoa(rec.Code)
+		}
+		return "error", strconv.Itoa(rec.Code) + " " + strings.TrimSpace(c19Trunc(rec.Body.Bytes()))
+	})
+	if out == "hang" || out == "panic" {
+		return 0, http.Header{}, out, note
+	}
+	return rec.Code, rec.Header(), out, note
+}
+
+// --- legacy SSE server: POST body into SSEServerTransport.ServeHTTP
+func c19FrSSEServerPost(c c19FrCase, frame []byte, tag string) (string, string) {
+	ctx, cancel := context.WithCancel(context.Background())
+	defer cancel()
+	t := &SSEServerTransport{Endpoint: "/msg?sessionid=1", Response: &c19RW{}}
+	conn, err := t.Connect(ctx)
+	if err != nil {
+		return "error", "set-up: " + err.Error()
+	}
+	defer conn.Close()
+	_, _, out, note := c19Serve(t, "POST", map[string]string{"Content-Type": "application/json"}, frame)
+	return out, note
+}
+
+// --- streamable HTTP server: POST body into StreamableHTTPHandler.ServeHTTP
+func c19FrHTTPPost(c c19FrCase, frame []byte, tag string) (string, string) {
+	server := NewServer(&Implementation{Name: "c19-fr", Version: "1"}, nil)
+	h := NewStreamableHTTPHandler(func(*http.Request) *Server { return server },
+		&StreamableHTTPOptions{Stateless: c.Path == "http.post.stateless", DisableLocalhostProtection: true})
+	hdr := map[string]string{"Content-Type": "application/json", "Accept": "application/json, text/event-stream"}
+	sid := ""
+	defer func() {
+		if sid != "" {
+			c19Serve(h, "DELETE", map[string]string{"Mcp-Session-Id": sid, "Mcp-Protocol-Version": c.Proto}, nil)
+		}
+	}()
+	if c.Pos == "after" {
+		_, rh, out, note := c19Serve(h, "POST", hdr, []byte(`{"jsonrpc":"2.0","id":"init-`+tag+`","method":"initialize","params":{"protocolVersion":"`+c.Proto+
+			`","capabilities":{},"clientInfo":{"name":"c","version":"1"}}}`))
+		sid = rh.Get("Mcp-Session-Id")
+		if out != "value" || sid == "" {
+			return "error", "set-up: initialize: " + out + " " + note
+		}
+		hdr["Mcp-Session-Id"], hdr["Mcp-Protocol-Version"] = sid, c.Proto
+		if _, _, out, note := c19Serve(h, "POST", hdr, []byte(`{"jsonrpc":"2.0","method":"notifications/initialized"}`)); out != "value" {
+			return "error", "set-up: initialized: " + out + " " + note
+		}
+	} else {
+		hdr["Mcp-Protocol-Version"] = c.Proto
+	}
+	_, rh, out, note := c19Serve(h, "POST", hdr, frame)
+	if sid == "" {
+		sid = rh.Get("Mcp-Session-Id")
+	}
+	return out, note
+}
+
+// --- streamable HTTP client: the frame is the JSON body / the data of an SSE event of a POST response
+type c19FrCliRT struct {
+	mu    sync.Mutex
+	sse   bool
+	proto string
+	calls int
+	mk    func(respID string) []byte
+	frame []byte
+}
+
+func (rt *c19FrCliRT) RoundTrip(req *http.Request) (*http.Response, error) {
+	resp := func(code int, ctype string, body []byte) (*http.Response, error) {
+		h := http.Header{"Mcp-Session-Id": {"c19-sess"}}
+		if ctype != "" {
+			h.Set("Content-Type", ctype)
+		}
+		return &http.Response{StatusCode: code, Status: strconv.Itoa(code) + " " + http.StatusText(code), Header: h,
+			Body: io.NopCloser(bytes.NewReader(body)), ContentLength: int64(len(body)), Request: req}, nil
+	}
+	switch req.Method {
+	case http.MethodGet:
+		return resp(405, "", nil)
+	case http.MethodDelete:
+		return resp(204, "", nil)
+	}
+	body, _ := io.ReadAll(req.Body)
+	req.Body.Close()
+	var m struct {
+		ID     json.RawMessage `json:"id"`
+		Method string          `json:"method"`
+	}
+	json.Unmarshal(body, &m)
+	if len(m.ID) == 0 || m.Method == "" {
+		return resp(202, "", nil)
+	}
+	if m.Method == "initialize" {
+		return resp(200, "application/json", []byte(`{"jsonrpc":"2.0","id":`+string(m.ID)+`,"result":{"protocolVersion":"`+rt.proto+
+			`","capabilities":{},"serverInfo":{"name":"peer","version":"1"}}}`))
+	}
+	rt.mu.Lock()
+	rt.calls++
+	first := rt.calls == 1
+	if first {
+		rt.frame = rt.mk(string(m.ID))
+	}
+	frame := rt.frame
+	rt.mu.Unlock()
+	if !first {
+		return resp(200, "application/json", []byte(`{"jsonrpc":"2.0","id":`+string(m.ID)+`,"result":{}}`))
+	}
+	if rt.sse {
+		return resp(200, "text/event-stream", c19SSEBytes(c19Pick(rand.New(rand.NewPCG(uint64(len(frame)), 7)), "message", ""), frame))
+	}
+	return resp(200, "application/json", frame)
+}
+
+func c19FrHTTPClient(c c19FrCase, mk func(respID string) []byte, tag string) (out, note string, frame []byte) {
+	ctx, cancel := context.WithCancel(context.Background())
+	defer cancel()
+	rt := &c19FrCliRT{sse: c.Path == "http.client.sse", proto: c.Proto, mk: mk}
+	tr := &StreamableClientTransport{Endpoint: "http://c19.invalid/mcp", HTTPClient: &http.Client{Transport: rt}, MaxRetries: -1, DisableStandaloneSSE: true}
+	client := NewClient(&Implementation{Name: "c19-fr", Version: "1"}, nil)
+	cctx, ccancel := context.WithTimeout(ctx, c19FrLimit)
+	defer ccancel()
+	cs, err := client.Connect(cctx, tr, &ClientSessionOptions{ProtocolVersion: c.Proto})
+	if err != nil {
+		return "error", "set-up: connect: " + err.Error(), nil
+	}
+	defer c19CloseWithin(func() { cs.Close() })
+	// the call whose response is the frame
+	p1, p1cancel := context.WithTimeout(ctx, c19FrLimit)
+	defer p1cancel()
+	done := make(chan error, 1)
+	go func() { done <- cs.Ping(p1, nil) }()
+	select {
+	case err := <-done:
+		if err != nil {
+			note = "call answered by the frame: " + err.Error()
+		}
+	case <-time.After(300 * time.Millisecond): // a frame that is a message but not the response leaves the call pending
+		note = "call answered by the frame: still pending"
+	}
+	rt.mu.Lock()
+	frame = rt.frame
+	rt.mu.Unlock()
+	// is the connection still served?
+	p2, p2cancel := context.WithTimeout(ctx, c19FrLimit)
+	defer p2cancel()
+	if err := cs.Ping(p2, nil); err != nil {
+		if p2.Err() != nil {
+			return "hang", note + "; " + err.Error(), frame
+		}
+		return "error", note + "; " + err.Error(), frame
+	}
+	return "value", note, frame
+}
+
+// c19FrRecoverable: paths in which the SDK code under test runs in a goroutine of the harness (a panic is
+// recovered); in the others it runs in goroutines of the SDK and a panic ends the process.
+func c19FrRecoverable(path string) bool {
+	switch path {
+	case "ioconn.read", "sse.client.read", "sse.server.post", "http.post.stateless", "http.post.stateful":
+		return true
+	}
+	return false
+}
+
+func c19RunFr(r *rand.Rand, c c19FrCase, tag string) (o c19FrOut, in, note string) {
+	nl := true // white space may contain line ends (a JSON text may span lines on every path)
+	mk := func(respID string) []byte { return c19Frame(r, c.Shape, c.Pad, tag, respID, nl) }
+	var frame []byte
+	if c.Path != "http.client.json" && c.Path != "http.client.sse" {
+		frame = mk(`"nobody-` + tag + `"`)
+	}
+	switch c.Path {
+	case "ioconn.read":
+		o.Out, note = c19FrIOConnRead(c, frame, tag)
+	case "io.server":
+		o.Out, note = c19FrIOServer(c, frame, tag)
+	case "io.client":
+		o.Out, note = c19FrIOClient(c, frame, tag)
+	case "sse.client.read":
+		o.Out, note = c19FrSSEClientRead(c, frame, tag)
+	case "sse.server.post":
+		o.Out, note = c19FrSSEServerPost(c, frame, tag)
+	case "http.post.stateless", "http.post.stateful":
+		o.Out, note = c19FrHTTPPost(c, frame, tag)
+	case "http.client.json", "http.client.sse":
+		o.Out, note, frame = c19FrHTTPClient(c, mk, tag)
+	default:
+		panic("frame path " + c.Path)
+	}
+	return o, c19Trunc(frame), note
+}
+
+// ---------------------------------------------------------------------------------------------
 
 func c19Load[T any](t *testing.T, dir, name string) []T {
 	f, err := os.Open(filepath.Join(dir, name))
@@ -2281,9 +3264,63 @@ func TestVerif_C19(t *testing.T) {
 		}
 	}
 	t.Logf("req+vc done %v lines=%d", time.Since(t0), line)
+	// 8. arity of list- and map-valued members of the result types
+	type arLine struct {
+		K   string    `json:"k"`
+		C   c19ArCase `json:"c"`
+		O   c19ArOut  `json:"o"`
+		Rep int       `json:"rep"`
+	}
+	for _, x := range c19Par(c19Load[c19ArCase](t, in, "cases_ar.ndjson"), 4*reps, seed, 8, func(r *rand.Rand, c c19ArCase, rep int) (res c19Res) {
+		var o c19ArOut
+		var enc string
+		func() {
+			defer func() {
+				if p := recover(); p != nil {
+					o, enc = c19ArOut{Wire: "other"}, fmt.Sprintf("panic: %v", p)
+				}
+			}()
+			o, enc = c19RunAr(r, c)
+		}()
+		return c19Res{arLine{"ar", c, o, rep}, fmt.Sprintf("%s.%s/%s/%s/%s", c.Type, c.Member, c.Arity, c.Rt, c.Fill), enc, true}
+	}) {
+		emit(x.line)
+		detail(x.in, x.out)
+	}
+	t.Logf("ar done %v lines=%d", time.Since(t0), line)
 	// 6. arbitrary bytes
 	if nfuzz > 0 {
 		c19Fuzz(rand.New(rand.NewPCG(seed, 1900)), nfuzz, emit)
+	}
+	t.Logf("fuzz done %v lines=%d", time.Since(t0), line)
+	// 7. frames through the read loops of the real transports, last: in the paths whose reader runs in a
+	// goroutine of the SDK a panic ends the process; the case in flight is left in <out>.inflight for the runner
+	type frLine struct {
+		K   string    `json:"k"`
+		C   c19FrCase `json:"c"`
+		O   c19FrOut  `json:"o"`
+		Rep int       `json:"rep"`
+	}
+	if frCases := c19Load[c19FrCase](t, in, "cases_fr.ndjson"); len(frCases) > 0 {
+		sort.SliceStable(frCases, func(i, j int) bool { return c19FrRecoverable(frCases[i].Path) && !c19FrRecoverable(frCases[j].Path) })
+		inflight := outp + ".inflight"
+		for rep := 0; rep < reps; rep++ {
+			for i, c := range frCases {
+				w.Flush()
+				wd.Flush()
+				b, _ := json.Marshal(frLine{"fr", c, c19FrOut{Out: "crash"}, rep})
+				if err := os.WriteFile(inflight, b, 0o644); err != nil {
+					t.Fatal(err)
+				}
+				r := rand.New(rand.NewPCG(seed, 7<<32|uint64(rep*len(frCases)+i)))
+				o, fin, note := c19RunFr(r, c, fmt.Sprintf("%d-%d", rep, i))
+				emit(frLine{"fr", c, o, rep})
+				detail(fin, note)
+			}
+		}
+		w.Flush()
+		wd.Flush()
+		os.Remove(inflight)
 	}
 	t.Logf("all done %v lines=%d", time.Since(t0), line)
 }
